@@ -796,6 +796,42 @@ def enum_mappings():
     return cases
 
 
+RAW_NAMES = ["r#type", "r#match", "r#final", "r#async", "r#in"]
+
+
+def enum_raw_idents():
+    """raw identifiers as payload variable names (typed parameter, typed / untyped let, alias, unbound -> name
+    fall-back, field of a struct value), through x / &x / x.clone(), and as names of the functions hosting emits"""
+    cases = []
+    i = 0
+    for rn in RAW_NAMES:
+        for t in (TY("Progress"), ["ref", TY("Settings")], TY("u32"), TY("Vec", TY("Progress"))):
+            for how in ("param", "let", "let-struct", "alias", "shadow-plain", "unbound", "field"):
+                for wrapk in ("x", "&x", "x.clone()"):
+                    i += 1
+                    params = [["app", None, APP_T]]
+                    body = []
+                    v = V(rn)
+                    if how == "param":
+                        params.append([rn, None, t])
+                    elif how == "let":
+                        body.append(["let", ["typed", rn, t], ["call", V("make"), []]])
+                    elif how == "let-struct":
+                        body.append(["let", ["ident", rn, False], ["struct", ["Progress"]]])
+                    elif how == "alias":
+                        params.append(["src", None, t]); body.append(["let", ["ident", rn, i % 2 == 0], V("src")])
+                    elif how == "shadow-plain":      # the same name without the prefix is a different key for the tool
+                        params.append([rn[2:] + "_", None, t]); params.append([rn, None, TY("Other")])
+                    elif how == "field":
+                        params.append(["cfg", None, TY("Cfg")]); v = ["field", V("cfg"), rn]
+                    p = {"x": v, "&x": ["ref", v], "x.clone()": M(v, "clone")}[wrapk]
+                    body.append(["expr", M(EMIT(V("app"), "raw-evt", p), "ok")])
+                    c = single(body, zod=(i % 3 == 0), params=params)
+                    c["files"][0]["fns"][0]["name"] = RAW_NAMES[i % len(RAW_NAMES)] if i % 2 else "work"
+                    cases.append(c)
+    return cases
+
+
 def payload_forms():
     forms = {
         "str": SL("hello"), "int": ["lit", "int"], "float": ["lit", "float"], "bool": ["lit", "bool"], "unit": ["tuple", []],
@@ -940,6 +976,8 @@ def malformed_cases(rng, n):
     ]
     for body in fixed:
         cases.append(single(body))
+    for r in [V("r#app"), V("r#window"), ["field", V("state"), "r#webview"]]:       # raw spelling of a handle name: not recognised by the tool
+        cases.append(single([["expr", M(EMIT(r, "raw-recv", ["lit", "int"]), "ok")]]))
     for r in UNDOC_RECEIVERS:
         cases.append(single([["expr", M(EMIT(r, "undoc-recv", ["lit", "int"]), "ok")]]))
     for nm in ["a.b", "with space", "é", "a+b", "q?", "", "a'b", "tab\there", "0", "$x", "a.b.c", "#tag", "a\"q"]:
